@@ -1,9 +1,18 @@
 //! One-off generator of the committed ECDSA test keys (`keys/ec*.pk8`).
 use aws_lc_rs::rand::SystemRandom;
-use aws_lc_rs::signature::{EcdsaKeyPair, ECDSA_P256_SHA256_ASN1_SIGNING};
+use aws_lc_rs::signature::{EcdsaKeyPair, Ed25519KeyPair, ECDSA_P256_SHA256_ASN1_SIGNING};
 fn main() {
     let rng = SystemRandom::new();
+    // ed25519 keys in PKCS#8 v2 (the form `tough::sign::parse_keypair` accepts from a key file)
+    for i in 0..3 {
+        let p = vworld::keys::keys_dir().join(format!("edv2_{i}.pk8"));
+        if !p.exists() {
+            let doc = Ed25519KeyPair::generate_pkcs8(&rng).unwrap();
+            std::fs::write(p, doc.as_ref()).unwrap();
+        }
+    }
     for i in 0..4 {
+        if vworld::keys::keys_dir().join(format!("ec{i}.pk8")).exists() { continue; }
         let doc = EcdsaKeyPair::generate_pkcs8(&ECDSA_P256_SHA256_ASN1_SIGNING, &rng).unwrap();
         std::fs::write(vworld::keys::keys_dir().join(format!("ec{i}.pk8")), doc.as_ref()).unwrap();
     }
